@@ -26,7 +26,8 @@ programmer chose.
   C18 in a loop body `if c: continue` followed by REST -> `if not c: REST` (guard clauses of loops are nested).
   C21 (De Morgan) an if / conditional expression whose test is an and/or of negative tests only has its branches
       swapped and tests the or/and of the positive ones.
-  C22 `return A and B or C` over boolean-valued tests -> nested `if`s with literal `return True` / `return False`.
+  C22 `return A and B or C` over boolean-valued tests (also a single comparison, `bool(<and/or>)`, `any(<generator>)`) ->
+      nested `if`s / a loop with literal `return True` / `return False`.
   C20 loops / list and dict comprehensions / any() / all() over a display of at most 8 constants are written out (_Unroll).
   C19 the operands of an `and` / `or` are sorted where the order cannot matter: all pure, no None, boolean context or
       boolean-valued operands, and no access path read by two operands (one operand may guard the other's evaluation).
@@ -100,11 +101,36 @@ def _is_bool_valued(e):
         return all(_is_bool_valued(v) for v in e.values)
     if isinstance(e, ast.Constant) and isinstance(e.value, bool):
         return True
-    if isinstance(e, ast.Call) and isinstance(e.func, ast.Name) and e.func.id in ("isinstance", "bool", "callable", "hasattr"):
+    if isinstance(e, ast.Call) and isinstance(e.func, ast.Name) and e.func.id in ("isinstance", "bool", "callable", "hasattr", "any", "all"):
         return True
     if isinstance(e, ast.Call) and isinstance(e.func, ast.Attribute) and e.func.attr in ("startswith", "endswith", "isdigit", "isalpha"):
         return True
+    if isinstance(e, ast.Call) and isinstance(e.func, ast.Attribute) and e.func.attr.lstrip("_").split("_")[0] in ("is", "has"):
+        return True         # the package's predicates (is_vector_register, _is_x86_reg_type, has_hidden_loads, ...) return booleans
     return False
+
+
+def _any_gen(e):
+    """(generator) when e is any(<one-`for` generator / list comprehension>)"""
+    if isinstance(e, ast.Call) and isinstance(e.func, ast.Name) and e.func.id == "any" and len(e.args) == 1 and not e.keywords \
+            and isinstance(e.args[0], (ast.GeneratorExp, ast.ListComp)) and len(e.args[0].generators) == 1 \
+            and not e.args[0].generators[0].is_async:
+        return e.args[0]
+    return None
+
+
+def _any_loop(ge, body, at):
+    """`if any(E for t in it if c): BODY` (BODY leaves the function) as a loop: for t in it: if c and E: BODY"""
+    g = ge.generators[0]
+    test = ge.elt if not g.ifs else ast.BoolOp(op=ast.And(), values=list(g.ifs) + [ge.elt])
+    test._boolctx = True
+    inner = ast.If(test=test, body=body, orelse=[])
+    loop = ast.For(target=g.target, iter=g.iter, body=[inner], orelse=[])
+    for x in (inner, loop):
+        ast.copy_location(x, at)
+    if not hasattr(test, "lineno"):
+        ast.copy_location(test, at)
+    return loop
 
 
 def mark_bool_contexts(tree):
@@ -298,7 +324,20 @@ class _Canon(ast.NodeTransformer):
     def visit_Return(self, n):
         self.generic_visit(n)
         v = n.value
-        if self.pattern or v is None or not isinstance(v, (ast.BoolOp, ast.UnaryOp)) or not _is_bool_valued(v) or _has_meta(v):
+        if self.pattern or v is None or _has_meta(v):
+            return n
+        if isinstance(v, ast.Call) and isinstance(v.func, ast.Name) and v.func.id == "bool" and len(v.args) == 1 and not v.keywords \
+                and isinstance(v.args[0], (ast.BoolOp, ast.UnaryOp)):
+            # bool(<and/or/not>): only the truth of the operands matters
+            for x in ([v.args[0]] + list(getattr(v.args[0], "values", []))):
+                x._boolctx = True
+            v = v.args[0]
+            truthy = True
+        else:
+            truthy = False
+        if _any_gen(v) is not None or (isinstance(v, ast.Compare) and len(v.ops) == 1):
+            v = ast.copy_location(ast.BoolOp(op=ast.Or(), values=[v]), v)
+        if not isinstance(v, (ast.BoolOp, ast.UnaryOp)) or not (truthy or _is_bool_valued(v)):
             return n
         if isinstance(v, ast.UnaryOp) and not isinstance(v.op, ast.Not):
             return n
@@ -313,7 +352,7 @@ class _Canon(ast.NodeTransformer):
                 for x in e.values:
                     out.extend(tree(x, yes, []))
                 return out + no
-            if isinstance(e, ast.BoolOp) and isinstance(e.op, ast.And) and any(isinstance(x, ast.BoolOp) for x in e.values):
+            if isinstance(e, ast.BoolOp) and isinstance(e.op, ast.And) and any(isinstance(x, ast.BoolOp) or _any_gen(x) is not None for x in e.values):
                 inner = yes
                 for x in reversed(e.values):
                     inner = tree(x, inner, [])
@@ -323,6 +362,8 @@ class _Canon(ast.NodeTransformer):
                 # keep it as one test
                 pass
             e._boolctx = True
+            if _any_gen(e) is not None and yes and isinstance(yes[-1], ast.Return):
+                return [_any_loop(_any_gen(e), [_deep(s) for s in yes], n)] + no
             return [ast.copy_location(ast.If(test=e, body=[_deep(s) for s in yes], orelse=[]), n)] + no
 
         return tree(v, [lit(True)], [lit(False)])
